@@ -84,7 +84,14 @@ def run_one(s):
     model.eval()
     tr = {"build_exc": "", "ins": sp_list(model.input_space), "outs": sp_list(model.output_space), "pres": []}
     parts = list(model.models) if m["k"] in ("seq", "par") else []
+    pres = []
     for pr in s["pres"]:
+        if pr["axes"] == 2 and not pr["drop"]:
+            # history: the same object first sees a batch of the SAME shape whose slices along the leading axis are copies of each
+            # other (rows a, b | a, b), then the batch whose slices differ
+            pres.append(dict(pr, rows=list(pr["rows"][:len(pr["rows"]) // 2]) * 2))
+        pres.append(pr)
+    for pr in pres:
         rec = {"order": pr["order"], "rows": pr["rows"], "axes": pr["axes"], "drop": pr["drop"], "exc": "", "obs": [], "parts_ok": True, "outsp": []}
         pts = present(pr["order"], pr["rows"], pr["axes"])
         with torch.no_grad():
